@@ -24,6 +24,15 @@
 using rkcommon::memory::IntrusivePtr;
 using rkcommon::memory::RefCountedObject;
 
+// The harness reads a handle's pointer through the (public) field `ptr`.  If a tree no longer has that
+// field accessible the check rebuilds with -DC08_PUBLIC_ONLY, which uses operator->() instead, so that the
+// oracle-judged histories still run.
+#ifdef C08_PUBLIC_ONLY
+#define PTR(x) ((x).operator->())
+#else
+#define PTR(x) ((x).ptr)
+#endif
+
 static std::vector<int> *g_destroyed = nullptr;       // sequential mode: destructor log
 static std::atomic<int> *g_adestroyed = nullptr;      // threads mode: destructor counters
 
@@ -241,8 +250,8 @@ template <typename A, typename B2>
 static char cmp(const IntrusivePtr<A> &a, const IntrusivePtr<B2> &b)
 {
   bool eq1 = (a == b), eq2 = (b == a), ne1 = (a != b), ne2 = (b != a), lt = (a < b), gt = (b < a);
-  const Base *pa = a.ptr;
-  const Base *pb = b.ptr;
+  const Base *pa = PTR(a);
+  const Base *pb = PTR(b);
   bool same = (pa == pb);
   bool wantlt = std::less<const Base *>()(pa, pb), wantgt = std::less<const Base *>()(pb, pa);
   if (same) return (eq1 && eq2 && !ne1 && !ne2 && !lt && !gt) ? 'e' : 'X';
@@ -263,7 +272,7 @@ static std::string observe(World &w)
   for (int h = 0; h < n; h++) {
     if (h) os << ',';
     if (!w.live(h)) { os << '.'; continue; }
-    const void *p = w.isB(h) ? (const void *)w.hb[h].h().ptr : (const void *)w.hd[h - w.NB].h().ptr;
+    const void *p = w.isB(h) ? (const void *)PTR(w.hb[h].h()) : (const void *)PTR(w.hd[h - w.NB].h());
     if (!p) {
       os << '0';
       // operator bool of an empty handle is false (both handle types)
@@ -280,10 +289,10 @@ static std::string observe(World &w)
     // operator bool / operator-> / operator* agree with ptr (both handle types, through a const handle)
     if (w.isB(h)) {
       const IntrusivePtr<Base> &x = w.hb[h].h();
-      if (!bool(x) || x.operator->() != x.ptr || &*x != x.ptr) os << '!';
+      if (!bool(x) || x.operator->() != PTR(x) || &*x != PTR(x)) os << '!';
     } else {
       const IntrusivePtr<Derived> &x = w.hd[h - w.NB].h();
-      if (!bool(x) || x.operator->() != x.ptr || &*x != x.ptr) os << '!';
+      if (!bool(x) || x.operator->() != PTR(x) || &*x != PTR(x)) os << '!';
     }
   }
   os << '|';
@@ -369,22 +378,22 @@ static int run_threads(int T, long OPS, unsigned long long seed, int ROUNDS)
           case 2: mine[i] = mine[k]; break;                                        // incl. self assignment
           case 3: mine[i] = std::move(mine[k]); break;                             // incl. self move
           case 4: mine[i] = (Base *)nullptr; break;                                // drop
-          case 5: mine[i] = shared[j].ptr; break;                                  // raw assignment
+          case 5: mine[i] = PTR(shared[j]); break;                                  // raw assignment
           case 6: { IntrusivePtr<Base> tmp(shared[j]); IntrusivePtr<Base> t2(std::move(tmp)); mine[i] = t2; } break;
           case 7: { IntrusivePtr<Base> tmp(sharedD[j % 2]); mine[i] = tmp;                    // derived-to-base conversion
                     IntrusivePtr<Derived> d(sharedD[j % 2]); mine[k] = std::move(d);            // ... from an rvalue
-                    IntrusivePtr<const Base> c = IntrusivePtr<Derived>(sharedD[j % 2].ptr); (void)c; } break;
-          case 8: { Base *p = shared[j].ptr; p->refInc(); if (p->useCount() < 2) fail("count < 2 while holding an explicit reference"); p->refDec(); } break;
-          default: { IntrusivePtr<Base> tmp(mine[k].ptr); mine[i] = tmp; } break;  // raw constructor from an owned handle
+                    IntrusivePtr<const Base> c = IntrusivePtr<Derived>(PTR(sharedD[j % 2])); (void)c; } break;
+          case 8: { Base *p = PTR(shared[j]); p->refInc(); if (p->useCount() < 2) fail("count < 2 while holding an explicit reference"); p->refDec(); } break;
+          default: { IntrusivePtr<Base> tmp(PTR(mine[k])); mine[i] = tmp; } break;  // raw constructor from an owned handle
           }
         }
       });
     for (auto &th : ths) th.join();
     for (int o = 0; o < M; o++) {
       long want = 1;
-      for (auto &s : shared) if (s.ptr == objs[o]) want++;
-      for (auto &s : sharedD) if (s.ptr && static_cast<Base *>(s.ptr) == objs[o]) want++;
-      for (auto &v : own) for (auto &s : v) if (s.ptr == objs[o]) want++;
+      for (auto &s : shared) if (PTR(s) == objs[o]) want++;
+      for (auto &s : sharedD) if (PTR(s) && static_cast<Base *>(PTR(s)) == objs[o]) want++;
+      for (auto &v : own) for (auto &s : v) if (PTR(s) == objs[o]) want++;
       if (destroyed[o] != 0) { fail("object " + std::to_string(o) + " destroyed while referenced"); continue; }
       long got = objs[o]->useCount();
       if (got != want) fail("object " + std::to_string(o) + ": useCount " + std::to_string(got) + " != creator+handles " + std::to_string(want));
@@ -517,10 +526,10 @@ static int run_traits()
     std::cout << " fresh_count=" << o->useCount();
     rkcommon::memory::Ref<Plain> viaAlias(o);              // the alias is the same template
     IntrusivePtr<Plain> n(nullptr);                        // constructor from the literal nullptr
-    std::cout << " nullptr_ctor=" << (n.ptr == nullptr && !n ? "null" : "BAD") << "," << o->useCount();
+    std::cout << " nullptr_ctor=" << (PTR(n) == nullptr && !n ? "null" : "BAD") << "," << o->useCount();
     IntrusivePtr<Plain> q(o);
     q = nullptr;                                           // assignment of the literal nullptr releases
-    std::cout << " nullptr_assign=" << (q.ptr == nullptr && !q ? "null" : "BAD") << "," << o->useCount();
+    std::cout << " nullptr_assign=" << (PTR(q) == nullptr && !q ? "null" : "BAD") << "," << o->useCount();
     const IntrusivePtr<Plain> c(o);                        // accessors through a const handle
     c->v = 5; (*c).v += 1;
     std::cout << " const_access=" << o->v;
